@@ -231,6 +231,21 @@ type Machine struct {
 	Stores []StoreRec
 	kz     map[*ssa.BasicBlock]map[string]bool
 	assume map[string]bool
+	// case split: force[bit] fixes the outcome of every branch whose condition is that input bit
+	// (bit kinds In only; a Not condition is looked up negated); edges a forced branch cannot take
+	// are dead, and blocks reachable only through dead edges are not executed.
+	force    map[Bit]bool
+	deadEdge map[[2]*ssa.BasicBlock]bool
+	// alias: a slice parameter of an inlined callee is the caller's slice at a constant offset, so the
+	// bytes the callee reads keep the caller's names
+	alias map[ssa.Value]sliceAlias
+	// Subs: the machines of the module callees executed for this function's calls
+	Subs []*Machine
+}
+
+type sliceAlias struct {
+	rn, bn string
+	off    int64
 }
 
 // RetState is the symbolic state at a return.
@@ -288,7 +303,13 @@ func Run(prog *core.Program, fn *ssa.Function) *Machine { return RunAssuming(pro
 // RunAssuming executes fn under a domain restriction: the listed source bits ("recv.Version.2")
 // are zero (e.g. the well-formed-packet precondition of a property).
 func RunAssuming(prog *core.Program, fn *ssa.Function, zeroBits []string) *Machine {
-	m := &Machine{assume: map[string]bool{}, Prog: prog, Fn: fn, env: map[ssa.Value]Vec{}, mem: map[*ssa.BasicBlock]map[string]Vec{}, names: map[ssa.Value]string{}, bind: map[ssa.Value]Vec{}}
+	return RunForced(prog, fn, zeroBits, nil)
+}
+
+// RunForced is RunAssuming under a case split: every branch on one of the given input bits takes
+// the given side only. Running once per value of the bit covers every execution.
+func RunForced(prog *core.Program, fn *ssa.Function, zeroBits []string, force map[Bit]bool) *Machine {
+	m := &Machine{force: force, deadEdge: map[[2]*ssa.BasicBlock]bool{}, assume: map[string]bool{}, Prog: prog, Fn: fn, env: map[ssa.Value]Vec{}, mem: map[*ssa.BasicBlock]map[string]Vec{}, names: map[ssa.Value]string{}, bind: map[ssa.Value]Vec{}}
 	for _, z := range zeroBits {
 		m.assume[z] = true
 	}
@@ -391,11 +412,35 @@ func (m *Machine) sliceBase(v ssa.Value) (ssa.Value, string, int64, bool) {
 	return v, bn, off, true
 }
 
+// sliceName names the storage behind a slice value: root name, symbolic base and constant offset.
+func (m *Machine) sliceName(sl ssa.Value) (rn, bn string, off int64, ok bool) {
+	root, bn, off, ok := m.sliceBase(sl)
+	if !ok {
+		return "", "", 0, false
+	}
+	if a, aliased := m.alias[root]; aliased {
+		if a.bn != "" && bn != "" {
+			return "", "", 0, false
+		}
+		if a.bn != "" {
+			bn = a.bn
+		}
+		return a.rn, bn, off + a.off, true
+	}
+	rn = m.rootName(root)
+	if u, isLoad := root.(*ssa.UnOp); isLoad && u.Op == token.MUL {
+		// slice loaded from a field: name it by the field path
+		r, p := core.AddrKey(u.X)
+		rn = m.rootName(r) + p
+	}
+	return rn, bn, off, true
+}
+
 // cellKey names the memory cell an address designates.
 func (m *Machine) cellKey(addr ssa.Value) (string, bool) {
 	switch x := addr.(type) {
 	case *ssa.IndexAddr:
-		root, bn, off, ok := m.sliceBase(x.X)
+		rn, bn, off, ok := m.sliceName(x.X)
 		if !ok {
 			return "", false
 		}
@@ -405,12 +450,6 @@ func (m *Machine) cellKey(addr ssa.Value) (string, bool) {
 		}
 		if ib != nil {
 			bn = ib.Name()
-		}
-		rn := m.rootName(root)
-		if u, isLoad := root.(*ssa.UnOp); isLoad && u.Op == token.MUL {
-			// slice loaded from a field: name it by the field path
-			r, p := core.AddrKey(u.X)
-			rn = m.rootName(r) + p
 		}
 		if bn != "" {
 			return fmt.Sprintf("%s[%s%+d]", rn, bn, off+io), true
@@ -554,9 +593,12 @@ func (m *Machine) execBlock(b *ssa.BasicBlock) {
 	state := map[string]Vec{}
 	var preds []*ssa.BasicBlock
 	for _, p := range b.Preds {
-		if _, ok := m.mem[p]; ok && !b.Dominates(p) {
+		if _, ok := m.mem[p]; ok && !b.Dominates(p) && !m.deadEdge[[2]*ssa.BasicBlock{p, b}] {
 			preds = append(preds, p)
 		}
+	}
+	if m.force != nil && len(preds) == 0 && len(b.Preds) > 0 {
+		return // only reachable against a forced branch
 	}
 	switch len(preds) {
 	case 0:
@@ -622,6 +664,51 @@ func (m *Machine) execBlock(b *ssa.BasicBlock) {
 		m.exec(in, state)
 	}
 	m.mem[b] = state
+	if m.force != nil && len(b.Instrs) > 0 {
+		if iff, ok := b.Instrs[len(b.Instrs)-1].(*ssa.If); ok && b.Succs[0] != b.Succs[1] {
+			if c := m.val(iff.Cond); len(c) == 1 {
+				bit, neg := c[0], false
+				if bit.K == Not {
+					bit, neg = Bit{K: In, Src: bit.Src, J: bit.J}, true
+				}
+				if truth, forced := m.force[bit]; forced && bit.K == In {
+					if neg {
+						truth = !truth
+					}
+					dead := b.Succs[0]
+					if truth {
+						dead = b.Succs[1]
+					}
+					m.deadEdge[[2]*ssa.BasicBlock{b, dead}] = true
+				}
+			}
+		}
+	}
+}
+
+// BranchBits lists the distinct input bits that some branch of the function tests directly.
+func (m *Machine) BranchBits() []Bit {
+	var out []Bit
+	seen := map[Bit]bool{}
+	for _, b := range m.Fn.Blocks {
+		if len(b.Instrs) == 0 {
+			continue
+		}
+		iff, ok := b.Instrs[len(b.Instrs)-1].(*ssa.If)
+		if !ok {
+			continue
+		}
+		c := m.val(iff.Cond)
+		if len(c) != 1 || (c[0].K != In && c[0].K != Not) {
+			continue
+		}
+		bit := Bit{K: In, Src: c[0].Src, J: c[0].J}
+		if !seen[bit] {
+			seen[bit] = true
+			out = append(out, bit)
+		}
+	}
+	return out
 }
 
 // initialCell is the content of a cell never written on a path: a source for receiver/param
@@ -684,6 +771,24 @@ func (m *Machine) exec(in ssa.Instruction, state map[string]Vec) {
 			return
 		}
 		b := x.Block()
+		if m.force != nil {
+			// one live incoming edge: the phi is that edge's value
+			live := -1
+			n := 0
+			for i, p := range b.Preds {
+				_, ran := m.mem[p]
+				if (ran || b.Dominates(p)) && !m.deadEdge[[2]*ssa.BasicBlock{p, b}] {
+					live = i
+					n++
+				}
+			}
+			if n == 1 {
+				if v := m.val(x.Edges[live]); len(v) == w {
+					m.setEnv(x, v)
+					return
+				}
+			}
+		}
 		if m.inLoop[b] {
 			isHead := false
 			for _, p := range b.Preds {
@@ -873,7 +978,9 @@ func (m *Machine) fieldOfValue(x *ssa.Field, w int) Vec {
 
 func (m *Machine) binop(x *ssa.BinOp) Vec {
 	w := width(x.Type())
-	a, b := m.val(x.X), m.val(x.Y)
+	// operands are refined where they are used: a value loaded before its range guard is as bounded
+	// below the guard as one loaded after it
+	a, b := m.refine(m.val(x.X), x.Block()), m.refine(m.val(x.Y), x.Block())
 	switch x.Op {
 	case token.AND, token.OR, token.XOR, token.AND_NOT:
 		if len(a) != len(b) || len(a) == 0 {
@@ -988,6 +1095,9 @@ func (m *Machine) binop(x *ssa.BinOp) Vec {
 		}
 		return topVec(w)
 	case token.EQL, token.NEQ, token.GTR, token.LSS, token.GEQ, token.LEQ:
+		if bit, ok := m.nilTest(x); ok {
+			return Vec{bit}
+		}
 		if m.Cmps == nil {
 			m.Cmps = map[ssa.Value]CmpInfo{}
 		}
@@ -997,6 +1107,70 @@ func (m *Machine) binop(x *ssa.BinOp) Vec {
 		return Vec{m.compare(x, a, b)}
 	}
 	return topVec(w)
+}
+
+// nilTest: `f != nil` / `f == nil` on a pointer field of a by-value struct parameter that the function
+// only reads (its spill slot is reached by field loads alone) is an input bit "<cell>#nonnil".
+func (m *Machine) nilTest(x *ssa.BinOp) (Bit, bool) {
+	if x.Op != token.EQL && x.Op != token.NEQ {
+		return Bit{}, false
+	}
+	v, other := x.X, x.Y
+	if core.IsNilConst(v) {
+		v, other = other, v
+	}
+	if !core.IsNilConst(other) {
+		return Bit{}, false
+	}
+	if _, isPtr := v.Type().Underlying().(*types.Pointer); !isPtr {
+		return Bit{}, false
+	}
+	ld, ok := v.(*ssa.UnOp)
+	if !ok || ld.Op != token.MUL {
+		return Bit{}, false
+	}
+	fa, ok := ld.X.(*ssa.FieldAddr)
+	if !ok {
+		return Bit{}, false
+	}
+	al, ok := fa.X.(*ssa.Alloc)
+	if !ok || al.Referrers() == nil {
+		return Bit{}, false
+	}
+	nStore := 0
+	for _, r := range *al.Referrers() {
+		switch u := r.(type) {
+		case *ssa.FieldAddr:
+			if u.Referrers() == nil {
+				return Bit{}, false
+			}
+			for _, rr := range *u.Referrers() {
+				if l, isLoad := rr.(*ssa.UnOp); !isLoad || l.Op != token.MUL {
+					return Bit{}, false
+				}
+			}
+		case *ssa.Store:
+			if _, isParam := u.Val.(*ssa.Parameter); !isParam || u.Addr != al {
+				return Bit{}, false
+			}
+			nStore++
+		case *ssa.DebugRef:
+		default:
+			return Bit{}, false
+		}
+	}
+	if nStore != 1 {
+		return Bit{}, false
+	}
+	key, ok := m.cellKey(fa)
+	if !ok {
+		return Bit{}, false
+	}
+	bit := Bit{K: In, Src: key + "#nonnil", J: 0}
+	if x.Op == token.EQL {
+		return notBit(bit), true
+	}
+	return bit, true
 }
 
 // compare handles comparisons of a vector with a constant when the outcome is one input bit.
@@ -1175,12 +1349,18 @@ func (m *Machine) call(x *ssa.Call, state map[string]Vec) {
 		}
 	}
 	callee := x.Call.StaticCallee()
-	if callee != nil && !x.Call.IsInvoke() && core.InModule(callee) && len(callee.Blocks) > 0 && m.depth < 4 && w > 0 {
-		sub := &Machine{Prog: m.Prog, Fn: callee, env: map[ssa.Value]Vec{}, mem: map[*ssa.BasicBlock]map[string]Vec{}, names: map[ssa.Value]string{}, bind: map[ssa.Value]Vec{}, depth: m.depth + 1, parent: m}
+	if callee != nil && !x.Call.IsInvoke() && core.InModule(callee) && len(callee.Blocks) > 0 && m.depth < 4 {
+		sub := &Machine{Prog: m.Prog, Fn: callee, env: map[ssa.Value]Vec{}, mem: map[*ssa.BasicBlock]map[string]Vec{}, names: map[ssa.Value]string{}, bind: map[ssa.Value]Vec{}, depth: m.depth + 1, parent: m,
+			alias: map[ssa.Value]sliceAlias{}}
+		m.Subs = append(m.Subs, sub)
 		for i, p := range callee.Params {
 			if i < len(x.Call.Args) {
 				if v := m.val(x.Call.Args[i]); v != nil {
 					sub.bind[p] = v
+				} else if _, isSlice := p.Type().Underlying().(*types.Slice); isSlice {
+					if rn, bn, off, ok := m.sliceName(x.Call.Args[i]); ok {
+						sub.alias[p] = sliceAlias{rn, bn, off}
+					}
 				} else if _, isPtr := p.Type().Underlying().(*types.Pointer); isPtr {
 					// pointer receiver: name its fields after the caller's view of the object
 					if key, ok := m.cellKey(x.Call.Args[i]); ok {
@@ -1194,6 +1374,10 @@ func (m *Machine) call(x *ssa.Call, state map[string]Vec) {
 		// callee sees the caller's memory for cells with the same names
 		sub.mem[nil] = state
 		sub.runWithState(state)
+		if w == 0 {
+			// no scalar result to bind: the callee was executed for the values it computes (EachValue)
+			return
+		}
 		// comparisons made by the callee on the caller's bits are the caller's comparisons too
 		// (a test moved into a predicate method such as IsFragmentationUnit)
 		if len(sub.Cmps) > 0 {
@@ -1298,14 +1482,9 @@ func (m *Machine) lenName(v ssa.Value) string {
 
 // byteKey names byte i of a slice value.
 func (m *Machine) byteKey(sl ssa.Value, i int64) (string, bool) {
-	root, bn, off, ok := m.sliceBase(sl)
+	rn, bn, off, ok := m.sliceName(sl)
 	if !ok {
 		return "", false
-	}
-	rn := m.rootName(root)
-	if u, isLoad := root.(*ssa.UnOp); isLoad && u.Op == token.MUL {
-		r, p := core.AddrKey(u.X)
-		rn = m.rootName(r) + p
 	}
 	if bn != "" {
 		return fmt.Sprintf("%s[%s%+d]", rn, bn, off+i), true
@@ -1496,6 +1675,9 @@ func (m *Machine) InLoop(b *ssa.BasicBlock) bool { return m.inLoop[b] }
 func (m *Machine) EachValue(f func(v ssa.Value, vec Vec)) {
 	for v, vec := range m.env {
 		f(v, vec)
+	}
+	for _, s := range m.Subs {
+		s.EachValue(f)
 	}
 }
 
